@@ -1,26 +1,246 @@
-import LinOp.C10.Model
+import LinOp.C10.ProofsPSD
+import LinOp.C10.ProofsLoop
+import LinOp.C10.ProofsPrecond
+import Mathlib.Analysis.Real.Sqrt
 import LinOp.Generated.C10Consts
 /-!
 C10 — pivoted Cholesky under-approximates greedily; its preconditioner is exact.  Property theorems only.
 -/
 namespace LinOp.C10
-open LinOp.Generated
 
 /-- The control conditions and formulas extracted from the working tree are the ones the model mirrors. -/
 theorem generated_source_matches_model :
-    C10.whileTest = "m == 0 or (m < max_iter and torch.max(errors) > error_tol)" ∧
-    C10.maxIterClamp = "min(max_iter, matrix_shape[-1])" ∧
-    C10.bodyIfs = ["m + 1 < matrix_shape[-1]", "m > 0"] ∧
-    C10.origError = "torch.max(matrix_diag, dim=-1)[0]" ∧
-    C10.errors = ["torch.norm(matrix_diag, 1, dim=-1) / orig_error",
+    LinOp.Generated.C10.whileTest = "m == 0 or (m < max_iter and torch.max(errors) > error_tol)" ∧
+    LinOp.Generated.C10.maxIterClamp = "min(max_iter, matrix_shape[-1])" ∧
+    LinOp.Generated.C10.bodyIfs = ["m + 1 < matrix_shape[-1]", "m > 0"] ∧
+    LinOp.Generated.C10.origError = "torch.max(matrix_diag, dim=-1)[0]" ∧
+    LinOp.Generated.C10.errors = ["torch.norm(matrix_diag, 1, dim=-1) / orig_error",
                   "torch.norm(matrix_diag.gather(-1, pi_i), 1, dim=-1) / orig_error"] ∧
-    C10.tolDefault = "error_tol = settings.preconditioner_tolerance.value()" ∧
-    C10.returns = ["(L[..., :m, :].mT.contiguous(), permutation)"] ∧
-    C10.diagClone = true ∧
-    C10.enableTest = "settings.max_preconditioner_size.value() == 0 or self.size(-1) < settings.min_preconditioning_size.value()" ∧
-    C10.pivCholCall = "self._linear_op.pivoted_cholesky(rank=max_iter)" ∧
-    C10.maxIterSource = "settings.max_preconditioner_size.value()" ∧
-    C10.closureReturns = ["tensor / self._noise - qqt", "1 / self._noise * (tensor - qqt)"] := by
+    LinOp.Generated.C10.tolDefault = "error_tol = settings.preconditioner_tolerance.value()" ∧
+    LinOp.Generated.C10.returns = ["(L[..., :m, :].mT.contiguous(), permutation)"] ∧
+    LinOp.Generated.C10.diagClone = true ∧
+    LinOp.Generated.C10.enableTest = "settings.max_preconditioner_size.value() == 0 or self.size(-1) < settings.min_preconditioning_size.value()" ∧
+    LinOp.Generated.C10.pivCholCall = "self._linear_op.pivoted_cholesky(rank=max_iter)" ∧
+    LinOp.Generated.C10.maxIterSource = "settings.max_preconditioner_size.value()" ∧
+    LinOp.Generated.C10.closureReturns = ["tensor / self._noise - qqt", "1 / self._noise * (tensor - qqt)"] := by
   decide +kernel
+
+/-! ### Pivoted Cholesky (`PivotedCholesky.forward`), per batch member, any size `n`, any step count -/
+
+section pc
+variable {α : Type} [Field α] [LinearOrder α] [IsStrictOrderedRing α] {n : Nat}
+
+/-- **The pivots are always a permutation**: after any number of iterations, on any input (PSD or not,
+whatever `sqrt` does), `permutation` is a bijection of `0..n-1`. -/
+theorem pc_perm_valid (P : Prim α) (A : Mat α n n) (m : Nat) : Function.Bijective (iter P A m).perm.get := by
+  induction m with
+  | zero => exact (init_inv A).bij
+  | succ m ih =>
+    simp only [iter]
+    split
+    · rw [step_perm]; exact swapPerm_bij _ _ ih
+    · exact ih
+
+/-- **Each pivot is the largest remaining residual diagonal entry**: in iteration `m` the index moved to position `m`
+carries a diagonal entry of `A − L_m L_mᵀ` that is `≥` the entry of every index not yet pivoted. -/
+theorem pc_pivot_is_argmax {P : Prim α} {A : Mat α n n} (hP : SqrtLaw P) (hA : Symm A) (m : Nat) (hm : m < n)
+    (hpos : PivotsPos P A m) :
+    let s := iter P A m
+    let p := (iter P A (m + 1)).perm.get ⟨m, hm⟩
+    (∃ j : Fin n, m ≤ j.val ∧ p = s.perm.get j) ∧
+    ∀ j : Fin n, m ≤ j.val → resid A s.rows (s.perm.get j) (s.perm.get j) ≤ resid A s.rows p p := by
+  intro s p
+  have hinv : Inv A s m := iter_inv hP hA m hm.le hpos
+  have hp : p = s.perm.get (pivotPos s ⟨m, hm⟩) := by
+    simp only [p, iter, hm, dite_true]; rw [step_perm, swapPerm_m]
+  refine ⟨⟨pivotPos s ⟨m, hm⟩, pivotPos_ge s ⟨m, hm⟩, hp⟩, ?_⟩
+  intro j hj
+  rw [hp, ← hinv.diag j hj, ← hinv.diag _ (pivotPos_ge s ⟨m, hm⟩)]
+  exact (argmaxFrom_spec (fun j => s.diag.get (s.perm.get j)) ⟨m, hm⟩).2 j hj
+
+/-- **The tracked diagonal is the residual diagonal** on every index not yet pivoted. -/
+theorem pc_diag_tracks_residual {P : Prim α} {A : Mat α n n} (hP : SqrtLaw P) (hA : Symm A) (m : Nat) (hm : m ≤ n)
+    (hpos : PivotsPos P A m) (j : Fin n) (hj : m ≤ j.val) :
+    let s := iter P A m
+    s.diag.get (s.perm.get j) = resid A s.rows (s.perm.get j) (s.perm.get j) :=
+  (iter_inv hP hA m hm hpos).diag j hj
+
+/-- **`A − L Lᵀ` vanishes on the rows and columns of the pivots chosen so far.** -/
+theorem pc_pivot_rows_zero {P : Prim α} {A : Mat α n n} (hP : SqrtLaw P) (hA : Symm A) (m : Nat) (hm : m ≤ n)
+    (hpos : PivotsPos P A m) (j : Fin n) (hj : j.val < m) (k : Fin n) :
+    let s := iter P A m
+    resid A s.rows (s.perm.get j) k = 0 ∧ resid A s.rows k (s.perm.get j) = 0 := by
+  intro s
+  have h := (iter_inv hP hA m hm hpos).zero j hj k
+  exact ⟨h, by rw [resid_symm hA]; exact h⟩
+
+/-- **`A − L Lᵀ` stays positive semi-definite** (each step takes a Schur complement). -/
+theorem pc_residual_psd {P : Prim α} {A : Mat α n n} (hP : SqrtLaw P) (hA : Symm A) (hpsd : PSD A) (m : Nat)
+    (hm : m ≤ n) (hpos : PivotsPos P A m) : PSD (resid A (iter P A m).rows) :=
+  iter_psd hP hA hpsd m hm hpos
+
+/-- **The residual diagonal (hence the residual trace) never increases**, entry by entry, on any input. -/
+theorem pc_trace_monotone (P : Prim α) (A : Mat α n n) (m : Nat) (i : Fin n) :
+    resid A (iter P A (m + 1)).rows i i ≤ resid A (iter P A m).rows i i := by
+  simp only [iter]
+  split
+  · obtain ⟨l, hrows, _⟩ := step_rows P A (iter P A m) ⟨m, by assumption⟩
+    rw [hrows, resid_append]
+    have := mul_self_nonneg (l.get i)
+    linarith
+  · exact le_refl _
+
+theorem pc_trace_monotone_sum (P : Prim α) (A : Mat α n n) (m : Nat) :
+    ∑ i, resid A (iter P A (m + 1)).rows i i ≤ ∑ i, resid A (iter P A m).rows i i :=
+  Finset.sum_le_sum fun i _ => pc_trace_monotone P A m i
+
+/-- **Exact at `r = n`**: after `n` iterations `A = L Lᵀ` entry by entry. -/
+theorem pc_exact_at_n {P : Prim α} {A : Mat α n n} (hP : SqrtLaw P) (hA : Symm A) (hpos : PivotsPos P A n)
+    (i k : Fin n) : A i k = lltEntry (iter P A n).rows i k := by
+  have hinv := iter_inv hP hA n (le_refl _) hpos
+  obtain ⟨j, rfl⟩ := hinv.bij.2 i
+  have := hinv.zero j j.isLt k
+  simp only [resid] at this
+  linarith
+
+/-- **At most `min(k, n)` columns, at least one; every member ran the same `r` iterations.** -/
+theorem pc_rank_le (P : Prim α) (As : List (Mat α n n)) (rank : Nat) (tol : α) (hrank : 0 < rank) (hn : 0 < n) :
+    let res := run P As rank tol
+    1 ≤ res.1 ∧ res.1 ≤ rank ∧ res.1 ≤ n ∧ res.2 = As.map (fun A => iter P A res.1) ∧
+    ∀ s ∈ res.2, (factor s).length = res.1 := by
+  intro res
+  have h := run_spec P As rank tol hrank hn
+  refine ⟨h.pos rfl, le_trans h.le_max (Nat.min_le_left _ _), le_trans h.le_max (Nat.min_le_right _ _), h.states, ?_⟩
+  intro s hs
+  rw [h.states] at hs
+  obtain ⟨A, _, rfl⟩ := List.mem_map.1 hs
+  have hr : res.1 ≤ n := le_trans h.le_max (Nat.min_le_right _ _)
+  have : ∀ m, m ≤ n → (iter P A m).rows.length = m := by
+    intro m
+    induction m with
+    | zero => intro _; rfl
+    | succ m ih =>
+      intro hm
+      have hlt : m < n := by omega
+      simp only [iter, hlt, dite_true]
+      obtain ⟨l, hrows, _⟩ := step_rows P A (iter P A m) ⟨m, hlt⟩
+      rw [hrows]; simp [ih (by omega)]
+  simp only [factor, List.length_map]
+  exact this _ hr
+
+/-- **Early stop only once the error is within the tolerance**: every iteration after the first ran because the largest
+error in the batch exceeded `error_tol`, and if the loop exits before `min(k, n)` iterations the largest error is `≤ error_tol`. -/
+theorem pc_stop_rule (P : Prim α) (As : List (Mat α n n)) (rank : Nat) (tol : α) (hrank : 0 < rank) (hn : 0 < n) :
+    let r := (run P As rank tol).1
+    (∀ t, 1 ≤ t → t < r → tol < errAt P As t) ∧ (r < min rank n → errAt P As r ≤ tol) := by
+  intro r
+  have h := run_spec P As rank tol hrank hn
+  exact ⟨fun t h1 h2 => h.continued t (Nat.zero_le _) h1 h2, fun hlt => not_lt.1 (h.stopped hlt (h.pos rfl))⟩
+
+/-- **On a positive-definite input every pivot is positive**, so the hypotheses `PivotsPos` of the theorems above hold
+automatically: for symmetric positive-definite `A` (any `n`), after any `m ≤ n` iterations the pivots form a permutation, the
+tracked diagonal is the residual diagonal, the residual is PSD and vanishes on the pivot rows and columns, and is zero at `m = n`. -/
+theorem pc_pd_pivots_pos {P : Prim α} {A : Mat α n n} (hP : SqrtLaw P) (hA : Symm A) (hpd : PD A) (m : Nat) (hm : m ≤ n) :
+    PivotsPos P A m ∧ PSD (resid A (iter P A m).rows) ∧
+    (∀ j : Fin n, j.val < m → ∀ k, resid A (iter P A m).rows ((iter P A m).perm.get j) k = 0) ∧
+    (m = n → ∀ i k, A i k = lltEntry (iter P A n).rows i k) := by
+  have hpos := (iter_pdu hP hA hpd m hm).1
+  have hpsd : PSD A := fun x => by
+    by_cases hx : x = 0
+    · subst hx; simp
+    · exact (hpd x hx).le
+  refine ⟨hpos, iter_psd hP hA hpsd m hm hpos, (iter_inv hP hA m hm hpos).zero, ?_⟩
+  intro he i k
+  subst he
+  exact pc_exact_at_n hP hA hpos i k
+
+end pc
+
+/-- The hypotheses are satisfiable: the real square root meets `SqrtLaw`, and `[[4,2],[2,5]]` is symmetric positive definite. -/
+noncomputable example : ∃ (P : Prim ℝ) (A : Mat ℝ 2 2), SqrtLaw P ∧ Symm A ∧ PD A := by
+  refine ⟨⟨Real.sqrt, Real.log⟩, fun i j => if i = j then (if i.val = 0 then 4 else 5) else 2, ?_, ?_, ?_⟩
+  · intro x hx; exact ⟨Real.mul_self_sqrt hx, Real.sqrt_nonneg x⟩
+  · intro i j; by_cases h : i = j
+    · subst h; rfl
+    · have h' : ¬ j = i := fun e => h e.symm
+      simp [h, h']
+  · intro x hx
+    simp only [bil, Fin.sum_univ_two, Fin.isValue]
+    have h01 : (0 : Fin 2) ≠ 1 := by decide
+    have h10 : (1 : Fin 2) ≠ 0 := by decide
+    simp only [h01, h10, if_true, if_false, Fin.val_zero, Fin.val_one]
+    have : x 0 ≠ 0 ∨ x 1 ≠ 0 := by
+      by_contra hc
+      push_neg at hc
+      apply hx; funext i; fin_cases i <;> simp [hc.1, hc.2]
+    norm_num
+    rcases this with h | h
+    · nlinarith [sq_nonneg (x 0 + x 1), sq_nonneg (x 1), sq_pos_of_ne_zero h]
+    · nlinarith [sq_nonneg (x 0 + x 1), sq_nonneg (x 0), sq_pos_of_ne_zero h]
+
+/-! ### The preconditioner of `AddedDiagLinearOperator` (one batch member, any `n`, `k`, number of columns) -/
+
+section precond
+variable {α : Type} [Field α] {n k c : Nat}
+
+/-- **`_precond_lt` denotes `L Lᵀ + D`.** -/
+theorem precond_lt_denote (L : Mat α n k) (d : Fin n → α) :
+    precondLt L d = (Matrix.of L * (Matrix.of L).transpose + Matrix.diagonal d : Matrix (Fin n) (Fin n) α) :=
+  precondLt_eq L d
+
+/-- **Constant diagonal: the closure applies exactly `(L Lᵀ + σ² I)⁻¹`.**  Under the contract of `torch.linalg.qr` on the
+matrix the code hands it (`Q R = cat(L, √s·I)`, `QᵀQ = I`) and `√s·√s = s ≠ 0`: `(L Lᵀ + s I) · closure(X) = X` for every `X`,
+where `closure(X) = (1/s)(X − Q₁(Q₁ᵀX))`, `Q₁ = Q[:n]` is `_q_cache`. -/
+theorem precond_const_inverse (P : Prim α) (L : Mat α n k) (s : α) (Q : Mat α (n + k) k) (R : Mat α k k) (x : Mat α n c)
+    (hs : P.sqrt s * P.sqrt s = s) (hs0 : s ≠ 0)
+    (hqr : Mat.mul Q R = qrInputConst P L s)
+    (horth : Mat.mul (Mat.transpose Q) Q = fun i j => if i = j then 1 else 0) :
+    Mat.mul (precondLt L fun _ => s) (closureConst (qCacheConst Q) s x) = x :=
+  const_inverse P L s Q R x hs hs0 hqr horth
+
+/-- **Constant diagonal: the closure is a symmetric matrix** (applied to the identity). -/
+theorem precond_const_symm (q : Mat α n k) (s : α) (i j : Fin n) :
+    closureConst q s (fun a b => if a = b then 1 else 0) i j = closureConst q s (fun a b => if a = b then 1 else 0) j i := by
+  simp only [closureConst, qqt, Mat.mul, tab_eq, sumFin_eq_sum, Mat.transpose, mul_ite, mul_one, mul_zero,
+    Finset.sum_ite_eq, Finset.sum_ite_eq', Finset.mem_univ, if_true]
+  congr 1; congr 1
+  · by_cases h : i = j
+    · simp [h]
+    · have h' : ¬ j = i := fun e => h e.symm
+      simp [h, h']
+  · apply Finset.sum_congr rfl; intro l _; ring
+
+end precond
+
+/-- The QR contract of `precond_const_inverse` is satisfiable: `L = [3]`, `s = 16`: `[3; 4] = [3/5; 4/5]·[5]`. -/
+example : ∃ (P : Prim Rat) (Q : Mat Rat (1 + 1) 1) (R : Mat Rat 1 1),
+    P.sqrt 16 * P.sqrt 16 = 16 ∧ Mat.mul Q R = qrInputConst P (fun _ _ => 3) 16 ∧
+    Mat.mul (Mat.transpose Q) Q = fun i j => if i = j then 1 else 0 := by
+  refine ⟨⟨fun _ => 4, fun _ => 0⟩, fun i _ => if i.val = 0 then 3 / 5 else 4 / 5, fun _ _ => 5, by norm_num, ?_, ?_⟩
+  · funext i j
+    fin_cases i <;> fin_cases j <;> simp [Mat.mul, sumFin, Fin.foldl_succ, qrInputConst, stackRows, scaledEye] <;> norm_num
+  · funext i j
+    fin_cases i; fin_cases j
+    simp [Mat.mul, Mat.transpose, sumFin, Fin.foldl_succ]; norm_num
+
+/-! ### Settings -/
+
+/-- With the defaults extracted from `settings.py` the preconditioner is used exactly for `n ≥ 2000`, with rank 15 and tolerance 1/1000. -/
+theorem precond_enabled_default (n : Nat) :
+    precondEnabled LinOp.Generated.C10.max_preconditioner_size LinOp.Generated.C10.min_preconditioning_size n = decide (2000 ≤ n) ∧
+    LinOp.Generated.C10.max_preconditioner_size = 15 ∧
+    (LinOp.Generated.C10.preconditioner_tolerance_num, LinOp.Generated.C10.preconditioner_tolerance_den) = (1, 1000) := by
+  refine ⟨?_, by decide, by decide⟩
+  simp only [precondEnabled, LinOp.Generated.C10.max_preconditioner_size, LinOp.Generated.C10.min_preconditioning_size]
+  by_cases h : 2000 ≤ n
+  · have h2 : ¬ n < 2000 := by omega
+    simp [h, h2]
+  · have h2 : n < 2000 := by omega
+    simp [h, h2]
+
+/-- `max_preconditioner_size = 0` or a matrix smaller than `min_preconditioning_size` switch the preconditioner off, and nothing else does. -/
+theorem precond_enabled_iff (maxSize minSize n : Nat) :
+    precondEnabled maxSize minSize n = true ↔ maxSize ≠ 0 ∧ minSize ≤ n := by
+  simp [precondEnabled]
 
 end LinOp.C10
